@@ -563,6 +563,11 @@ def vite(c, a, b):
     if isinstance(c, bool):
         return a if c else b
     ct = tobool(c)
+    cs = z3.simplify(ct) if z3.is_expr(ct) else ct
+    if z3.is_true(cs):
+        return a
+    if z3.is_false(cs):
+        return b
     if not is_sym(a) and not is_sym(b) and a is b:
         return a
     if a is VBottom:
